@@ -606,6 +606,21 @@ class Tr:
                 lam = call.keywords[0].value
                 ok = (len(lam.args.args) == 1 and isinstance(lam.body, ast.Attribute) and lam.body.attr == 'fit'
                       and isinstance(lam.body.value, ast.Name) and lam.body.value.id == lam.args.args[0].arg)
+            if not ok and not call.args and len(call.keywords) == 1 and call.keywords[0].arg == 'key' \
+                    and isinstance(call.keywords[0].value, ast.Call):
+                # key=operator.attrgetter('fit') / key=attrgetter('fit') with the name imported from `operator` in this file
+                kc = call.keywords[0].value
+                tree_here, _ = parse(self.repo, self.curfile)
+                names = set()
+                for n in tree_here.body:
+                    if isinstance(n, ast.ImportFrom) and n.module == 'operator':
+                        names |= {(a.asname or a.name) for a in n.names if a.name == 'attrgetter'}
+                    if isinstance(n, ast.Import):
+                        names |= {(a.asname or a.name) + '.attrgetter' for a in n.names if a.name == 'operator'}
+                rebound = any(isinstance(n, (ast.FunctionDef, ast.ClassDef)) and n.name in ('attrgetter', 'operator') for n in tree_here.body) or \
+                    any(isinstance(n, ast.Assign) and any(isinstance(t, ast.Name) and t.id in ('attrgetter', 'operator') for t in n.targets) for n in ast.walk(tree_here))
+                ok = (ast.unparse(kc.func) in names and not rebound and len(kc.args) == 1 and not kc.keywords
+                      and isinstance(kc.args[0], ast.Constant) and kc.args[0].value == 'fit')
             if not ok:
                 self.err(node, 'population sort must be .sort(key=lambda x: x.fit)')
             return [('SortByFit',)]
